@@ -105,7 +105,7 @@ var c01TagTemplates = []string{
 	"{{ h.X }}{{ h.Y }}{{ h.Zone }}{{ h.None }}{{ h.Arg }}{{ h.Ok }}{{ h.Three }}{{ h[k] }}{% if h contains k %}c{% endif %}{% if h contains 'Zone' %}z{% endif %}",
 	"{% assign q = h %}{{ q }}{% assign q = h | default: 1 %}{{ q }}",
 	"{% break %}{% continue %}",
-	"{% for i in (1..3) %}{% cycle 'a', 'b', 'c' %}{% cycle 'x' %}{% cycle 'g': 1, 2 %}{% cycle 'g': 'y' %}{% endfor %}{% tablerow i in (1..4) %}{% cycle 'p', 'q', 'r', 's' %}{% cycle 'z', h %}{% endtablerow %}",
+	"{% for i in (1..3) %}{% cycle 'a', 'b', 'c' %}{% cycle 'x' %}{% cycle 'g': 'm', 'n' %}{% cycle 'g': 'y' %}{% endfor %}{% tablerow i in (1..4) %}{% cycle 'p', 'q', 'r', 's' %}{% cycle 'z', 'w' %}{{ h }}{% endtablerow %}",
 	"{% for x in (1..2) %}{% for y in h %}{% break %}{% endfor %}{{ x }}{% endfor %}",
 }
 
